@@ -268,6 +268,31 @@ theorem delKey_never_unheld {c : TxProg.Cfg} (hr : ProgReachable c) {t : TxProg.
   obtain ⟨p, _, hst⟩ := hr.strong
   exact delKey_not_stuck hst hpc ch
 
+/-- `store.mu` NEVER CLOSES A CYCLE: a thread that cannot get `store.mu` (any of the eight acquisition sites) is kept
+    out by another, active thread that is inside one of its sections, and that thread's next transition is enabled
+    (whenever the allocator offers a new object — `exists_fresh`: it always can).  The protocol model has no
+    `store.mu` at all; this is the part of "every command completes" that only the program model can state. -/
+theorem store_mutex_never_deadlocks {c : TxProg.Cfg} (hr : ProgReachable c) {t : TxProg.Tid} {ch : TxProg.Choice}
+    (hpc : smuAcquire (c.loc t).pc = true) (hblocked : TxProg.step c t ch = none) :
+    ∃ u, u ≠ t ∧ (c.loc u).pc ≠ .init ∧
+      ∀ ch', assoc c.sh.names ch'.fresh = none → (TxProg.step c u ch').isSome = true := by
+  obtain ⟨p, _, hst⟩ := hr.strong
+  exact blocked_on_smu_by_a_mover hst hpc hblocked
+
+/-- the owners of `store.mu` are exactly threads inside its sections: whoever is its writer / one of its readers is
+    at a program counter between the Lock / RLock and the matching Unlock / RUnlock, and can take its next step -/
+theorem store_mutex_owner_is_in_section {c : TxProg.Cfg} (hr : ProgReachable c) {u : TxProg.Tid}
+    (hown : c.sh.smu.writer = some u ∨ u ∈ c.sh.smu.readers) :
+    (inW (c.loc u).pc = true ∨ inR (c.loc u).pc = true) ∧
+    ∀ ch, assoc c.sh.names ch.fresh = none → (TxProg.step c u ch).isSome = true := by
+  obtain ⟨p, _, hst⟩ := hr.strong
+  refine ⟨?_, fun ch hf => (smu_holder_can_move hst hown ch hf).2⟩
+  rcases hown with h | h
+  · exact Or.inl ((hst.conv u).1 h)
+  · exact Or.inr ((hst.conv u).2 h)
+
+theorem a_fresh_record_exists (c : TxProg.Cfg) : ∃ r, assoc c.sh.names r = none := exists_fresh c.sh.names
+
 /-- a record lock that is free is granted: the Lock transition at a8 is enabled when nobody owns the mutex -/
 theorem free_record_lock_is_granted (c : TxProg.Cfg) (t : TxProg.Tid) (ch : TxProg.Choice)
     (hpc : (c.loc t).pc = .a8) (hfree : (c.sh.mu (c.loc t).m).canLock = true) :
